@@ -27,6 +27,8 @@ EXTENDS Integers, Sequences, FiniteSets, TLC
 CONSTANTS N,              \* number of tasks
           W,              \* number of workers
           AtomicPublish,  \* BOOLEAN
+          Interrupts,     \* BOOLEAN: an exception (KeyboardInterrupt) may be delivered to the master once, at any of its
+                          \* scheduling points inside the try block of execute_tasks
           Configs,        \* set of configurations [kind, outc, init, order]
           Calls,          \* number of consecutive schedule() calls on the same scheduler object (1 or 2)
           None            \* model value
@@ -174,6 +176,21 @@ MWake ==
    /\ cvNotified' = FALSE /\ mpc' = "acqcv"
    /\ UNCHANGED <<cfgvars, envvars, queue, unfinished, left, idx, newleft, nbefore, k, raised, call, wvars, cvOwner, cvWaiting, hvars>>
 
+(* An exception delivered to the master from outside (Ctrl-C) while it is at a scheduling point of _process_tasks:
+   instead of performing the operation it was about to perform, it leaves the with-block (releasing the condition
+   variable; cond_var.wait() takes the lock back first, hence the guard) and enters the finally clause, which stops
+   the workers.  Tasks already queued are still executed by the workers before they meet the stop sentinels; tasks
+   not yet queued keep the status they have.  At most one such exception, and none once the master is in the finally
+   clause (a second Ctrl-C there is outside what C03 promises). *)
+MInterrupt ==
+   /\ Interrupts /\ ~raised
+   /\ mpc \in {"acqcv", "decide", "put", "wait", "qjoin"}
+   /\ (mpc = "wait" => cvOwner = 0)
+   /\ raised' = TRUE /\ mpc' = "stop" /\ k' = 1
+   /\ cvOwner' = IF cvOwner = M THEN 0 ELSE cvOwner
+   /\ cvWaiting' = FALSE /\ cvNotified' = FALSE
+   /\ UNCHANGED <<cfgvars, envvars, queue, unfinished, left, idx, newleft, nbefore, call, wvars, hvars>>
+
 MQJoin ==
    /\ mpc = "qjoin" /\ unfinished = 0
    /\ mpc' = "stop" /\ k' = 1
@@ -281,7 +298,7 @@ WNotify(w) ==
 Terminated == mpc \in {"returned", "raised"}
 Done == Terminated /\ (\A w \in Workers : wpc[w] = "exited") /\ UNCHANGED vars
 
-MasterNext == MStart \/ MAcqCv \/ MDecide \/ MPut \/ MWake \/ MQJoin \/ MStop \/ MJoin
+MasterNext == MStart \/ MAcqCv \/ MDecide \/ MPut \/ MWake \/ MQJoin \/ MStop \/ MJoin \/ MInterrupt
 WorkerNext(w) == WStart(w) \/ WGet(w) \/ WDoStart(w) \/ WPublish(w) \/ WPubStatus(w) \/ WPubApply(w)
                  \/ WPubClock(w) \/ WTaskDone(w) \/ WStopDone(w) \/ WNotify(w)
 Next == MasterNext \/ (\E w \in Workers : WorkerNext(w)) \/ Done
